@@ -348,6 +348,24 @@ def typed_names_scenario():
                 problems.append('names by %s: builtin fall-back resolves to %r' % (rule, m.doors[0].a))
         except Exception as e:  # noqa
             problems.append('names by %s: builtin named %r not found: %s' % (rule, b.name, str(e)[:60]))
+    # named objects inside a containment list that also holds primitive values (abstract rule with match
+    # alternatives), the list starting with a primitive
+    mm = metamodel_from_str("Model: vals+=Value refs*=Ref;\nValue: INT | STRING | Item;\nItem: 'item' name=ID;\n"
+                            "Ref: 'ref' r=[Item] ('also' rs+=[Item])*;")
+    try:
+        m = mm.model_from_str('5 "s" item a 7 item b ref b also a b')
+        items = [v for v in m.vals if hasattr(v, 'name')]
+        if m.refs[0].r is not items[1] or m.refs[0].rs != [items[0], items[1]]:
+            problems.append('mixed list: references resolve to %s' % ([m.refs[0].r] + m.refs[0].rs,))
+    except Exception as e:  # noqa
+        problems.append('mixed list (primitive values first): valid model fails: %s: %s' % (type(e).__name__, str(e)[:80]))
+    for text, want in (('5 item a ref zz', 'Unknown object'), ('5 item a 6 item a ref a', 'not unique')):
+        try:
+            mm.model_from_str(text)
+            problems.append('mixed list: %r loads, expected %s' % (text, want))
+        except TextXSemanticError as e:
+            if want not in str(e):
+                problems.append('mixed list: %r fails with %s, expected %s' % (text, str(e)[:60], want))
     return problems
 
 
